@@ -192,8 +192,12 @@ impl<'a, N: Normalizer> XmlSerializer<'a, N> {
                 }
                 // we don't want to output the xml prefix (names in the XML
                 // namespace are always written with it, whatever else is
-                // bound to that namespace)
-                if *namespace_id == self.xot.xml_namespace() {
+                // bound to that namespace), unless the element carries the
+                // redundant but legal declaration of it itself
+                if *namespace_id == self.xot.xml_namespace()
+                    && !(*prefix_id == self.xot.xml_prefix()
+                        && self.xot.namespaces(node).get(*prefix_id) == Some(namespace_id))
+                {
                     return Ok(OutputToken {
                         space: false,
                         text: "".to_string(),
